@@ -210,6 +210,7 @@ class Check:
         self.prop, self.tier, self.seed = prop, tier, seed
         self.t0 = time.time()
         self.violations = []      # (signature, what, replay object)
+        self.broken_replay = None
         self.known_hits = {}
         self.obligations = []     # (name, ok)
         self.axioms = {}
@@ -257,8 +258,11 @@ class Check:
                 return
         self.violations.append((signature, what, replay))
 
-    def corr_broken(self, name, detail):
+    def corr_broken(self, name, detail, replay=None):
+        """a correspondence that no longer checks; [replay]: the input/history on which model and implementation differ"""
         self.broken.append(('correspondence', name, detail))
+        if replay is not None and self.broken_replay is None:
+            self.broken_replay = replay
 
     # -- finish
     def finish(self, level='proof', rule='', evaluations=0, distinct=0, traces=0, extra_cov=None, checker_cmd=''):
@@ -281,8 +285,12 @@ class Check:
             # proof obligation / correspondence broken and the search found no failing input
             rp = os.path.join(OUTROOT, 'replays', '%s-%s-broken.json' % (self.prop, self.tier))
             with open(rp, 'w') as f:
-                json.dump({'property': self.prop, 'no_failing_input_found': True, 'seed': self.seed,
-                           'broken': [{'kind': k, 'name': n, 'detail': d} for k, n, d in self.broken]}, f, indent=1)
+                obj = {'property': self.prop, 'no_failing_input_found': True, 'seed': self.seed,
+                       'broken': [{'kind': k, 'name': n, 'detail': d} for k, n, d in self.broken]}
+                if self.broken_replay is not None:
+                    # no property clause fails on it, but model and implementation part ways on this input
+                    obj['replay'] = self.broken_replay
+                json.dump(obj, f, indent=1, default=str)
             for k, n, d in self.broken:
                 log('BROKEN %s %s:\n%s' % (k, n, d[:3000]))
             print('VIOLATION property=%s replay=%s no-failing-input-found' % (self.prop, rp))
